@@ -4,7 +4,9 @@ import (
 	"context"
 	"encoding/json"
 	"fmt"
+	"math/rand"
 	"os"
+	"strings"
 	"testing"
 	"testing/synctest"
 
@@ -121,6 +123,47 @@ func c11NackRedeliveryRace(t *testing.T, seed int64, viaDelay bool) (what string
 
 // c11Schedules: the scheduled races of the stream's own goroutines
 func c11Schedules(t *testing.T, st *Stats) {
+	// the no-stall half under schedules: a stream whose fetch found nothing must notice what becomes
+	// deliverable afterwards (publish, nack, ack of an ordered predecessor) wherever the writer's
+	// transaction falls between the steps of the fetch loop. The scenarios with a streaming waiter are
+	// those of the wake-up protocol (C10); a stream left sleeping is a stall here.
+	rng := rand.New(rand.NewSource(Seed() + 11))
+	limit := 40
+	if Tier() == "thorough" {
+		limit = 400
+	}
+	for _, sc := range c10Scenarios() {
+		streams := false
+		for _, w := range sc.Waiters {
+			streams = streams || w.Stream
+		}
+		if !streams {
+			continue
+		}
+		budget := map[string]int{}
+		var names []string
+		for i := range sc.Waiters {
+			n := fmt.Sprintf("W%d", i)
+			budget[n] = 4 + len(sc.Writers)
+			names = append(names, n)
+		}
+		for j := range sc.Writers {
+			n := fmt.Sprintf("X%d", j)
+			budget[n] = 2
+			names = append(names, n)
+		}
+		for _, sched := range c10Interleavings(budget, names, limit, rng) {
+			r := c10Run(t, Seed(), sc, sched)
+			st.Count("stream_wake_schedules", 1)
+			if r.violation != "" {
+				p := ReplayPath(fmt.Sprintf("C11-stall-%s-%d.json", sc.Name, Seed()))
+				b, _ := json.MarshalIndent(c10Replay{Property: "C11", Sig: "stall-" + r.sig, Seed: Seed(), Scenario: sc, Schedule: sched, What: r.violation, Trace: r.trace}, "", " ")
+				os.WriteFile(p, b, 0o644)
+				st.Violate(Violation{What: fmt.Sprintf("[stall-%s] streaming pull, scenario %s, schedule %s: %s", r.sig, sc.Name, strings.Join(sched, ","), r.violation), Replay: p, FoundInput: true, Sig: "stall-" + r.sig})
+				return
+			}
+		}
+	}
 	for _, viaDelay := range []bool{true, false} {
 		what := c11NackRedeliveryRace(t, Seed(), viaDelay)
 		st.Count("scheduled_races", 1)
